@@ -309,6 +309,35 @@ fn envdump(args: &[String]) -> i32 {
     0
 }
 
+/// Comparable description: fd:kind:name:mode:offset where name is the basename of a regular file / device,
+/// or the kind for pipes and sockets.
+fn fd_desc_names(fd: i32) -> Option<String> {
+    let mut st: libc::stat = unsafe { std::mem::zeroed() };
+    if unsafe { libc::fstat(fd, &mut st) } != 0 {
+        return None;
+    }
+    let fl = unsafe { libc::fcntl(fd, libc::F_GETFL) };
+    let acc = match fl & libc::O_ACCMODE {
+        libc::O_RDONLY => "r",
+        libc::O_WRONLY => "w",
+        _ => "rw",
+    };
+    let app = if fl & libc::O_APPEND != 0 { "a" } else { "" };
+    let link = std::fs::read_link(format!("/proc/self/fd/{fd}"))
+        .map(|p| p.to_string_lossy().to_string())
+        .unwrap_or_default();
+    let (kind, name) = match st.st_mode & libc::S_IFMT {
+        libc::S_IFREG => ("reg", link.rsplit('/').next().unwrap_or("").to_string()),
+        libc::S_IFDIR => ("dir", link.rsplit('/').next().unwrap_or("").to_string()),
+        libc::S_IFCHR => ("chr", link.rsplit('/').next().unwrap_or("").to_string()),
+        libc::S_IFIFO => ("fifo", "pipe".to_string()),
+        libc::S_IFSOCK => ("sock", "socket".to_string()),
+        _ => ("oth", "other".to_string()),
+    };
+    let off = if kind == "reg" { unsafe { libc::lseek(fd, 0, libc::SEEK_CUR) } } else { 0 };
+    Some(format!("{fd}:{kind}:{name}:{acc}{app}:{off}"))
+}
+
 fn fd_desc(fd: i32) -> Option<String> {
     let mut st: libc::stat = unsafe { std::mem::zeroed() };
     let r = unsafe { libc::fstat(fd, &mut st) };
@@ -347,6 +376,7 @@ fn fdprobe(args: &[String]) -> i32 {
     let mut dest = None;
     let mut tag = String::new();
     let mut max = 64;
+    let mut names = false;
     let mut i = 0;
     while i < args.len() {
         match args[i].as_str() {
@@ -358,6 +388,10 @@ fn fdprobe(args: &[String]) -> i32 {
                 tag = args.get(i + 1).cloned().unwrap_or_default();
                 i += 2;
             }
+            "--names" => {
+                names = true;
+                i += 1;
+            }
             "--max" => {
                 max = args.get(i + 1).and_then(|s| s.parse().ok()).unwrap_or(64);
                 i += 2;
@@ -368,7 +402,7 @@ fn fdprobe(args: &[String]) -> i32 {
     // Probe before opening anything ourselves.
     let mut line = format!("@F{tag}");
     for fd in 0..max {
-        if let Some(d) = fd_desc(fd) {
+        if let Some(d) = if names { fd_desc_names(fd) } else { fd_desc(fd) } {
             line.push(' ');
             line.push_str(&d);
         }
@@ -453,6 +487,73 @@ fn fdcount(args: &[String]) -> i32 {
     0
 }
 
+/// wr TAG [STATUS]: the redirection probe. Writes "@o.TAG out" to fd 1, "@e.TAG err" to fd 2, "@w<N>.TAG" to every other
+/// open writable fd 3..9, reads one line from fd 0 and from every open readable fd 3..9 (reported on fd 1 as
+/// "@i<N>.TAG <hex>"), and reports the table of open fds 0..9 with their access modes as "@t.TAG 0:r 1:w ...".
+/// All reports that go to fd 1 are lost if fd 1 is closed - which is itself an observation.
+fn wr(args: &[String]) -> i32 {
+    let tag = args.first().cloned().unwrap_or_default();
+    let status: i32 = args.get(1).and_then(|s| s.parse().ok()).unwrap_or(0);
+    let mut table = String::new();
+    let mut reads = String::new();
+    for fd in 0..10 {
+        let fl = unsafe { libc::fcntl(fd, libc::F_GETFL) };
+        if fl < 0 {
+            continue;
+        }
+        let acc = fl & libc::O_ACCMODE;
+        let a = match acc {
+            libc::O_RDONLY => "r",
+            libc::O_WRONLY => "w",
+            _ => "rw",
+        };
+        table.push_str(&format!(" {fd}:{a}"));
+        if (fd == 0 || fd >= 3) && acc != libc::O_WRONLY {
+            // read up to one line, byte by byte so that nothing beyond it is consumed
+            let mut line = Vec::new();
+            let mut b = [0u8; 1];
+            loop {
+                let n = unsafe { libc::read(fd, b.as_mut_ptr().cast(), 1) };
+                if n <= 0 || b[0] == b'\n' || line.len() > 200 {
+                    break;
+                }
+                line.push(b[0]);
+            }
+            reads.push_str(&format!("@i{fd}.{tag} {}\n", hex(&line)));
+        }
+        if fd >= 3 && acc != libc::O_RDONLY {
+            let msg = format!("@w{fd}.{tag} w\n");
+            unsafe {
+                libc::write(fd, msg.as_ptr().cast(), msg.len());
+            }
+        }
+    }
+    let out = format!("@o.{tag} out\n{reads}@t.{tag}{table}\n");
+    unsafe {
+        libc::write(1, out.as_ptr().cast(), out.len());
+    }
+    let err = format!("@e.{tag} err\n");
+    unsafe {
+        libc::write(2, err.as_ptr().cast(), err.len());
+    }
+    status
+}
+
+/// dumpf TAG FILE...: "@D.TAG name hex" for every existing file (content capped at 4 KiB), "@M.TAG name" for missing ones.
+fn dumpf(args: &[String]) -> i32 {
+    let tag = args.first().cloned().unwrap_or_default();
+    for name in args.iter().skip(1) {
+        match std::fs::read(name) {
+            Ok(mut data) => {
+                data.truncate(4096);
+                println!("@D.{tag} {name} {}", hex(&data));
+            }
+            Err(_) => println!("@M.{tag} {name}"),
+        }
+    }
+    0
+}
+
 fn msleep(args: &[String]) -> i32 {
     let ms: u64 = args.first().and_then(|s| s.parse().ok()).unwrap_or(0);
     std::thread::sleep(std::time::Duration::from_millis(ms));
@@ -497,6 +598,8 @@ fn main() {
         "fdcount" => fdcount(&sargs),
         "msleep" => msleep(&sargs),
         "logline" => logline(&sargs),
+        "wr" => wr(&sargs),
+        "dumpf" => dumpf(&sargs),
         other => {
             eprintln!("vtool: unknown tool {other}");
             2
